@@ -162,6 +162,7 @@ def eval (o : Obj α) (vars : Frame α) : Expr → Except Exc (Val α)
   | .selfAttr n =>
     if n = "item_validator" then .ok (.vfn o.itemValidator)
     else if n = "_item_validator" then .ok (.vfn .own)
+    else if n = "_validator" then .ok (.vfn .own)            -- TraitSetObject's bound item validator
     else if n = "notifier" then .ok .boundNotifier
     else stuck
   | .lambdaNone => .ok .noOwnerFn
@@ -307,5 +308,25 @@ def listObjectInit (C : Ctx α) (t : Option Bool) (owner : Bool) (xs : List α) 
       .ok { items := ys, itemValidator := .own, notifiers := .ownCopy, trait := some t, object := some owner,
             name := true, nameItems := some (t == some true) }
   else .error .traitError
+
+/-- `TraitSet.__init__` (trait_set_object.py:102-107), run with the same
+interpreter: `items` is the sequence of validated members handed to
+`set.__init__` (the set is `ofList` of it).  Unlike `TraitList`, the notifier
+list given is used AS IS (`self.notifiers = notifiers`: the caller's list object). -/
+def setInit (C : Ctx α) (xs : List α) (iv : Option VSrc) (ns : Option NSrc) : Except Exc (Obj α) :=
+  let v := iv.getD .everything
+  match valAll (C.vOf v) 0 xs with
+  | .error e => .error e
+  | .ok ys => .ok { items := ys, itemValidator := v, notifiers := ns.getD .newEmpty }
+
+/-- `TraitSetObject.__init__` (trait_set_object.py:474-484): attributes, then
+`TraitSet.__init__` with the object's own `_validator` and the display
+`[self.notifier]` itself; no length check. -/
+def setObjectInit (C : Ctx α) (t : Option Bool) (owner : Bool) (xs : List α) : Except Exc (Obj α) :=
+  match valAll C.own 0 xs with
+  | .error e => .error e
+  | .ok ys =>
+    .ok { items := ys, itemValidator := .own, notifiers := .ownAlias, trait := some t, object := some owner,
+          name := true, nameItems := some (t == some true) }
 
 end TraitsVerif.Model.PyLC
